@@ -6,7 +6,7 @@ import sys
 import numpy as np
 
 import impl_dsm
-from impl_dsm import Recorder, frac, make_dims, make_prm, nums
+from impl_dsm import Recorder, frac, make_dims, make_prm, nums, scramble
 from proto import REPO
 
 sys.path.insert(0, REPO)
@@ -43,6 +43,11 @@ def run_case(spec, lines, out):
     emit(f"m {m}", "ok")
     prm_objs = []
     min_diag = 1.0
+
+    def given(k):
+        """fresh parameter objects for set k (the ones handed over are scrambled right afterwards)"""
+        return {name: make_prm(v, dims) for name, v in spec["psets"][k].items()}
+
     for k, pk in enumerate(spec["psets"]):
         prms = {name: make_prm(v, dims) for name, v in pk.items()}
         prm_objs.append(prms)
@@ -74,9 +79,13 @@ def run_case(spec, lines, out):
         # the definition route builds the lifetime model with default inflow_at / n_pts
         stock.lifetime_model.inflow_at = spec["inflow_at"]
         stock.lifetime_model.n_pts_per_interval = spec["n_pts"]
-        stock.lifetime_model.set_prms(**prm_objs[k_cur])
+        g_ = given(k_cur)
+        stock.lifetime_model.set_prms(**g_)
+        scramble(g_)
     else:
-        lm = cls(**kw, **prm_objs[k_cur])
+        g_ = given(k_cur)
+        lm = cls(**kw, **g_)
+        scramble(g_)
         if kind == "idsm":
             stock = InflowDrivenDSM(dims=dims, lifetime_model=lm, time_letter="t")
         else:
@@ -88,7 +97,9 @@ def run_case(spec, lines, out):
         try:
             if op[0] == "setprms":
                 k_cur = op[1]
-                stock.lifetime_model.set_prms(**prm_objs[k_cur])
+                g_ = given(k_cur)
+                stock.lifetime_model.set_prms(**g_)
+                scramble(g_)
                 emit(f"h_setprms {k_cur}", "ok")
             elif op[0] == "setdriver":
                 drv = op[1]
